@@ -68,6 +68,26 @@ def histories(ck):
                 inc, b = rng.choice(variants(i, n))
                 h.append((kind, i, inc, b))
         out.append(h)
+    # files that change on disk behind the host's back (included files that are not open), interleaved with edits and root
+    # switches; such a history ends with the client sending a document and the server selecting it as root
+    for _ in range(250 if quick else 30000):
+        n = rng.choice([2, 3, 4])
+        h = [("edit", i, (), "class C%d;" % i) for i in range(n)] + [("root", rng.randrange(n), None, None)]
+        for _ in range(rng.randrange(3, 9)):
+            i = rng.randrange(n)
+            kind = rng.choice(["disk", "disk", "edit", "editroot", "root"])
+            if kind == "root":
+                h.append(("root", i, None, None))
+            else:
+                inc, b = rng.choice(variants(i, n))
+                h.append((kind, i, inc, b))
+        i = rng.randrange(n)
+        if rng.random() < 0.5:
+            h.append(("root", i, None, None))
+        else:
+            inc, b = rng.choice(variants(i, n))
+            h.append(("editroot", i, inc, b))
+        out.append(h)
     return out
 
 
@@ -112,6 +132,13 @@ def run(ck):
                     mops.append("e:%d:%d" % (i, fs[i]))
                     mops.append("r:%d" % i)
                     root = i
+            elif kind == "disk":
+                k, t = tid(inc, body)
+                ops.append([kind, p, t])
+                fs[i] = k
+                mops.append("d:%d:%d" % (i, k))
+                if root is not None:
+                    mops.append("r:%d" % root)
             else:
                 k, t = tid(inc, body)
                 ops.append([kind, p, t])
